@@ -221,7 +221,7 @@ func helpCase3(c *Ctx, si int, shape *tnode, assign []int, pol, subPol int, args
 	if version {
 		c.Count("nontrivial", 1)
 		c.Count("version_cases", 1)
-		if !hasLine(o.Stderr, "9.9.9-verif") || !quiet("version") {
+		if !hasLine(o.Stderr, treeVersionText) || !quiet("version") {
 			c.Violation("C14", key, cs(), "the version string is printed, nothing runs, exit 0 under ExitOnError / nil otherwise", obs)
 		}
 		return
